@@ -1043,6 +1043,7 @@ func TestC12(t *testing.T) {
 			}
 		}
 	}
+	c12Amounts(t, tr, w)
 	c12KillSwitch(t, tr, w)
 	c12Wasm(t, tr, w)
 	if thorough() {
@@ -1143,6 +1144,184 @@ func c12TxCase(t *testing.T, tr *Trace, c c12Case, signer, scnName string, scn c
 	if !base && signer != c.owner && (outcome == "ok" || !r.parentEmpty) {
 		t.Logf("DeliverTx %s: %s by %s: %s changed=%v", scnName, c.handler, signer, outcome, changed)
 	}
+}
+
+// ---------------------------------------------------------------------------------------------
+// amount-aware owner matrix
+
+// c12AmtSpec: a position-naming, owner-guarded message that carries an amount. `nums` reads the numbers stored in the
+// named position (collateral, debt, accrued interest, available amount …); the non-owner attempts are made with a family of
+// amounts derived from them, because handlers branch on amounts ("repay of exactly the debt closes the position").
+type c12AmtSpec struct {
+	handler, tag, app, denom string
+	nums                     func(w *c12World, ctx sdk.Context) map[string]sdk.Int
+	mk                       func(w *c12World, s sdk.AccAddress, amt sdk.Int) sdk.Msg
+}
+
+func c12VaultNums(w *c12World, ctx sdk.Context) map[string]sdk.Int {
+	v, _ := w.app.VaultKeeper.GetVault(ctx, w.vaultA)
+	return map[string]sdk.Int{"collateral": v.AmountIn, "principal": v.AmountOut, "debt": v.AmountOut.Add(v.InterestAccumulated),
+		"debtfee": v.AmountOut.Add(v.InterestAccumulated).Add(v.ClosingFeeAccumulated)}
+}
+
+func c12LockerNums(w *c12World, ctx sdk.Context) map[string]sdk.Int {
+	l, _ := w.app.LockerKeeper.GetLocker(ctx, w.lockerA)
+	return map[string]sdk.Int{"balance": l.NetBalance, "balret": l.NetBalance.Add(l.ReturnsAccumulated)}
+}
+
+func c12LendNums(w *c12World, ctx sdk.Context) map[string]sdk.Int {
+	l, _ := w.app.LendKeeper.GetLend(ctx, w.lendA)
+	return map[string]sdk.Int{"lent": l.AmountIn.Amount, "available": l.AvailableToBorrow}
+}
+
+func c12BorrowNums(id func(w *c12World) uint64) func(w *c12World, ctx sdk.Context) map[string]sdk.Int {
+	return func(w *c12World, ctx sdk.Context) map[string]sdk.Int {
+		b, _ := w.app.LendKeeper.GetBorrow(ctx, id(w))
+		l, _ := w.app.LendKeeper.GetLend(ctx, b.LendingID)
+		return map[string]sdk.Int{"collateral": b.AmountIn.Amount, "principal": b.AmountOut.Amount,
+			"debt":     b.AmountOut.Amount.Add(b.InterestAccumulated.TruncateInt()), // what RepayAsset's close shortcut compares with
+			"debtceil": b.AmountOut.Amount.Add(b.InterestAccumulated.Ceil().TruncateInt()), "available": l.AvailableToBorrow}
+	}
+}
+
+func c12AmtSpecs() []c12AmtSpec {
+	bA := func(w *c12World) uint64 { return w.borrowA }
+	bX := func(w *c12World) uint64 { return w.borrowAX }
+	return []c12AmtSpec{
+		{"vault.MsgDeposit", "", "vault", "uasset1", c12VaultNums, func(w *c12World, s sdk.AccAddress, a sdk.Int) sdk.Msg {
+			return &vaulttypes.MsgDepositRequest{From: s.String(), AppId: w.appVault, ExtendedPairVaultId: w.extPair, UserVaultId: w.vaultA, Amount: a}
+		}},
+		{"vault.MsgWithdraw", "", "vault", "uasset1", c12VaultNums, func(w *c12World, s sdk.AccAddress, a sdk.Int) sdk.Msg {
+			return &vaulttypes.MsgWithdrawRequest{From: s.String(), AppId: w.appVault, ExtendedPairVaultId: w.extPair, UserVaultId: w.vaultA, Amount: a}
+		}},
+		{"vault.MsgDraw", "", "vault", "uasset2", c12VaultNums, func(w *c12World, s sdk.AccAddress, a sdk.Int) sdk.Msg {
+			return &vaulttypes.MsgDrawRequest{From: s.String(), AppId: w.appVault, ExtendedPairVaultId: w.extPair, UserVaultId: w.vaultA, Amount: a}
+		}},
+		{"vault.MsgRepay", "", "vault", "uasset2", c12VaultNums, func(w *c12World, s sdk.AccAddress, a sdk.Int) sdk.Msg {
+			return &vaulttypes.MsgRepayRequest{From: s.String(), AppId: w.appVault, ExtendedPairVaultId: w.extPair, UserVaultId: w.vaultA, Amount: a}
+		}},
+		{"vault.MsgDepositAndDraw", "", "vault", "uasset1", c12VaultNums, func(w *c12World, s sdk.AccAddress, a sdk.Int) sdk.Msg {
+			return &vaulttypes.MsgDepositAndDrawRequest{From: s.String(), AppId: w.appVault, ExtendedPairVaultId: w.extPair, UserVaultId: w.vaultA, Amount: a}
+		}},
+		{"locker.MsgDepositAsset", "", "vault", "uasset2", c12LockerNums, func(w *c12World, s sdk.AccAddress, a sdk.Int) sdk.Msg {
+			return &lockertypes.MsgDepositAssetRequest{Depositor: s.String(), LockerId: w.lockerA, Amount: a, AssetId: w.a2, AppId: w.appVault}
+		}},
+		{"locker.MsgWithdrawAsset", "", "vault", "uasset2", c12LockerNums, func(w *c12World, s sdk.AccAddress, a sdk.Int) sdk.Msg {
+			return &lockertypes.MsgWithdrawAssetRequest{Depositor: s.String(), LockerId: w.lockerA, Amount: a, AssetId: w.a2, AppId: w.appVault}
+		}},
+		{"lend.Withdraw", "", "lend", "uasset1", c12LendNums, func(w *c12World, s sdk.AccAddress, a sdk.Int) sdk.Msg {
+			return &lendtypes.MsgWithdraw{Lender: s.String(), LendId: w.lendA, Amount: sdk.NewCoin("uasset1", a)}
+		}},
+		{"lend.Withdraw", "nolien", "lend", "uasset3", func(w *c12World, ctx sdk.Context) map[string]sdk.Int {
+			l, _ := w.app.LendKeeper.GetLend(ctx, w.lendA3) // no borrow on it: withdrawing everything turns into CloseLend
+			return map[string]sdk.Int{"lent": l.AmountIn.Amount, "available": l.AvailableToBorrow}
+		}, func(w *c12World, s sdk.AccAddress, a sdk.Int) sdk.Msg {
+			return &lendtypes.MsgWithdraw{Lender: s.String(), LendId: w.lendA3, Amount: sdk.NewCoin("uasset3", a)}
+		}},
+		{"lend.Deposit", "", "lend", "uasset1", c12LendNums, func(w *c12World, s sdk.AccAddress, a sdk.Int) sdk.Msg {
+			return &lendtypes.MsgDeposit{Lender: s.String(), LendId: w.lendA, Amount: sdk.NewCoin("uasset1", a)}
+		}},
+		{"lend.Borrow", "", "lend", "ucasset1", c12LendNums, func(w *c12World, s sdk.AccAddress, a sdk.Int) sdk.Msg {
+			return &lendtypes.MsgBorrow{Borrower: s.String(), LendId: w.lendA, PairId: w.lendPairA1A3, AmountIn: sdk.NewCoin("ucasset1", a), AmountOut: coin("uasset3", 200000000)}
+		}},
+		{"lend.Repay", "", "lend", "uasset2", c12BorrowNums(bA), func(w *c12World, s sdk.AccAddress, a sdk.Int) sdk.Msg {
+			return &lendtypes.MsgRepay{Borrower: s.String(), BorrowId: w.borrowA, Amount: sdk.NewCoin("uasset2", a)}
+		}},
+		{"lend.Repay", "xpool", "lend", "uasset4", c12BorrowNums(bX), func(w *c12World, s sdk.AccAddress, a sdk.Int) sdk.Msg {
+			return &lendtypes.MsgRepay{Borrower: s.String(), BorrowId: w.borrowAX, Amount: sdk.NewCoin("uasset4", a)}
+		}},
+		{"lend.Draw", "", "lend", "uasset2", c12BorrowNums(bA), func(w *c12World, s sdk.AccAddress, a sdk.Int) sdk.Msg {
+			return &lendtypes.MsgDraw{Borrower: s.String(), BorrowId: w.borrowA, Amount: sdk.NewCoin("uasset2", a)}
+		}},
+		{"lend.Draw", "xpool", "lend", "uasset4", c12BorrowNums(bX), func(w *c12World, s sdk.AccAddress, a sdk.Int) sdk.Msg {
+			return &lendtypes.MsgDraw{Borrower: s.String(), BorrowId: w.borrowAX, Amount: sdk.NewCoin("uasset4", a)}
+		}},
+		{"lend.DepositBorrow", "", "lend", "ucasset1", c12BorrowNums(bA), func(w *c12World, s sdk.AccAddress, a sdk.Int) sdk.Msg {
+			return &lendtypes.MsgDepositBorrow{Borrower: s.String(), BorrowId: w.borrowA, Amount: sdk.NewCoin("ucasset1", a)}
+		}},
+		{"lend.DepositBorrow", "xpool", "lend", "ucasset1", c12BorrowNums(bX), func(w *c12World, s sdk.AccAddress, a sdk.Int) sdk.Msg {
+			return &lendtypes.MsgDepositBorrow{Borrower: s.String(), BorrowId: w.borrowAX, Amount: sdk.NewCoin("ucasset1", a)}
+		}},
+	}
+}
+
+// c12Amounts: for every spec × state {t0, +30 d, +30 d with the accruals applied and stored, then +1 d} × signer
+// {A (owner, informational), B and D (funded in the denom), C (unfunded)} × the amount family
+// {1} ∪ {n/2, n-1, n, n+1 : n a number stored in the position} ∪ {the signer's whole balance of the denom}.
+func c12Amounts(t *testing.T, tr *Trace, w *c12World) {
+	cells := 0
+	type stateT struct {
+		name    string
+		days    int
+		accrued bool
+	}
+	states := []stateT{{"d0", 0, false}, {"d30acc", 30, true}}
+	if thorough() {
+		states = []stateT{{"d0", 0, false}, {"d30", 30, false}, {"d30acc", 30, true}, {"d365acc", 365, true}}
+	}
+	for _, sp := range c12AmtSpecs() {
+		c := c12Case{handler: sp.handler, owner: "A", names: true, app: sp.app, tag: "amt-" + sp.tag}
+		for _, st := range states {
+			mkStage := func() sdk.Context {
+				ctx := w.stage(c12Scn{esm: "none", price: "all", days: st.days}, c)
+				if st.accrued {
+					// the owner lets the accruals be computed and STORED, a day passes: stored interest is non-zero and stale
+					for _, m := range []sdk.Msg{
+						&lendtypes.MsgCalculateInterestAndRewards{Borrower: w.A.String()},
+						&vaulttypes.MsgVaultInterestCalcRequest{From: w.A.String(), AppId: w.appVault, UserVaultId: w.vaultA},
+						&lockertypes.MsgLockerRewardCalcRequest{From: w.A.String(), AppId: w.appVault, LockerId: w.lockerA},
+					} {
+						if h := w.app.MsgServiceRouter().Handler(m); h != nil {
+							cc, write := ctx.CacheContext()
+							if _, err := h(cc, m); err == nil {
+								write()
+							}
+						}
+					}
+					ctx = ctx.WithBlockTime(ctx.BlockTime().Add(24 * time.Hour)).WithBlockHeight(ctx.BlockHeight() + 14400)
+				}
+				return ctx
+			}
+			probe := mkStage()
+			nums := sp.nums(w, probe)
+			for _, signer := range []string{"A", "B", "D", "C"} {
+				who := w.actor(signer)
+				fam := map[string]sdk.Int{"one": sdk.OneInt(), "balance": w.app.BankKeeper.GetBalance(probe, who, sp.denom).Amount}
+				for name, n := range nums {
+					fam[name] = n
+					fam[name+"-1"] = n.SubRaw(1)
+					fam[name+"+1"] = n.AddRaw(1)
+					fam[name+"/2"] = n.QuoRaw(2)
+				}
+				labels := make([]string, 0, len(fam))
+				for l := range fam {
+					labels = append(labels, l)
+				}
+				sort.Strings(labels)
+				seen := map[string]bool{}
+				for _, l := range labels {
+					a := fam[l]
+					if !a.IsPositive() || seen[a.String()] {
+						continue
+					}
+					seen[a.String()] = true
+					if signer == "A" && !strings.HasSuffix(l, "debt") && l != "one" && !strings.HasSuffix(l, "available") && !strings.HasSuffix(l, "balance") && !strings.HasSuffix(l, "collateral") && !strings.HasSuffix(l, "lent") {
+						continue // the owner: only the exact values (informational: which of them his own message accepts)
+					}
+					ctx := mkStage()
+					before := w.dump(ctx)
+					r := w.deliver(ctx, before, w.victimProj(ctx), sp.mk(w, who, a))
+					w.emit(tr, c, fmt.Sprintf("amt/%s/%s/%s/%s=%s", sp.tag, st.name, signer, l, a), signer, false, c12Scn{esm: "none", price: "all", days: st.days}, false, r)
+					cells++
+					tr.Count("amt:" + signer + ":" + r.outcome)
+					if signer != "A" && (r.outcome == "ok" || !r.parentEmpty) {
+						t.Logf("ACCEPTED %s by %s with %s=%s (%s): changed %v", sp.handler, signer, l, a, st.name, r.changed)
+					}
+				}
+			}
+		}
+	}
+	tr.Set("amount_cells", cells)
 }
 
 func c12KillSwitch(t *testing.T, tr *Trace, w *c12World) {
